@@ -122,9 +122,13 @@ def hand_fold(texts_sorted, strict):
     """The property's own reference: add each message, freshly read, to the roCreate, in order."""
     from . import impl
     from mosromgr import exc
-    ro = impl.load(texts_sorted[0])
+    mid = lambda t: int(TJ.child_text(TJ.parse(t), 'messageID'))
+    texts_sorted = sorted(texts_sorted, key=mid)
+    creates = [t for t in texts_sorted if TJ.find(TJ.parse(t), 'roCreate') is not None]
+    ro = impl.load(creates[0])
+    rest = [t for t in texts_sorted if t is not creates[0]]
     warns, failures, err = [], 0, None
-    for t in texts_sorted[1:]:
+    for t in rest:
         mo = impl.load(t)
         with warnings.catch_warnings(record=True) as w:
             warnings.simplefilter('always')
@@ -178,15 +182,35 @@ def model_key(r, tree=False):
 
 # ---- C09 ------------------------------------------------------------------------------------------
 
+def with_create_id(docs, ids, rng):
+    """The same collection with the roCreate carrying a message ID that is NOT the lowest."""
+    if len(ids) < 3:
+        return None
+    k = rng.randrange(2, len(ids))
+    new_id = ids[k] * 10 + 5 if False else None
+    # an unused ID strictly between ids[k-1] and ids[k] if there is room, else above all
+    lo, hi = ids[k - 1], ids[k]
+    new_id = lo + 1 if hi - lo > 1 else max(ids) + 7
+    first = docs[0].replace(f'<messageID>{ids[0]}</messageID>', f'<messageID>{new_id}</messageID>', 1)
+    if first == docs[0]:
+        return None
+    return [first] + docs[1:]
+
+
 def run_c09(tier, seed):
     oc = Outcome('C09')
     n_hist = 250 if tier == 'quick' else 2500
     hists = hist_run.run_histories([seed * 7919 + 13 * k for k in range(n_hist)],
                                    max_steps=10 if tier == 'quick' else 30)
     jobs = []
+    rng = random.Random(seed * 19 + 3)
     for h in hists:
         docs = h['docs']
         has_delete = any(st['cls'] == 'RunningOrderEnd' for st in h['steps'])
+        alt = with_create_id(docs, h['ids'], rng)
+        if alt is not None:
+            jobs.append((h['seed'], alt, True, False, 'strings'))
+            jobs.append((h['seed'], alt, True, True, rng.choice(['strings', 'files', 's3'])))
         for strict in (False, True):
             jobs.append((h['seed'], docs, True, strict, 'strings'))
             if has_delete:
@@ -251,8 +275,10 @@ def run_c10(tier, seed):
     n_hist = 40 if tier == 'quick' else 120
     hists = hist_run.run_histories([seed * 104729 + 17 * k for k in range(n_hist)], max_steps=max_perm_len - 1)
     from . import impl
-    for h in hists:
+    for hi, h in enumerate(hists):
         docs = h['docs']
+        if hi % 2:
+            docs = with_create_id(docs, h['ids'], rng) or docs       # roCreate not the lowest message ID
         base = impl_collection(docs, True, False, via='strings')
         expect = (base['err'], base['reader_ids'], base['text'], base['run']['warns'] if base['run'] else None)
         perms = list(itertools.permutations(range(len(docs))))
@@ -324,9 +350,14 @@ def c11_lists(tier):
                 if n >= 2:
                     roid_variants.append(('last-differs', ['RO1'] * (n - 1) + ['RO2']))
                     roid_variants.append(('first-differs', ['RO2'] + ['RO1'] * (n - 1)))
+                    roid_variants.append(('creates-differ', ['RO2' if k == 'C' else 'RO1' for k in kinds]))
                 for label, roids in roid_variants:
-                    for order in ('create-first', 'create-last'):
+                    for order in ('create-first', 'create-last', 'create-middle'):
                         ks = kinds if order == 'create-first' else list(reversed(kinds))
+                        if order == 'create-middle':
+                            ks = kinds[nc:nc + (n - nc) // 2] + kinds[:nc] + kinds[nc + (n - nc) // 2:]
+                        if label == 'creates-differ':
+                            roids = ['RO2' if k == 'C' else 'RO1' for k in ks]
                         docs = []
                         for i, (k, rid) in enumerate(zip(ks, roids)):
                             mid = str(8 + 3 * i)
@@ -335,8 +366,9 @@ def c11_lists(tier):
                             elif k == 'D':
                                 docs.append(TJ.to_text(B.ro_delete(message_id=mid, ro_id=rid)))
                             else:
-                                docs.append(TJ.to_text(B.ready_to_air(message_id=mid, ro_id=rid) if i % 2
-                                                       else B.story_append([B.story(f'N{i}')], message_id=mid, ro_id=rid)))
+                                docs.append(TJ.to_text([B.ready_to_air(message_id=mid, ro_id=rid),
+                                                        B.story_append([B.story(f'N{i}')], message_id=mid, ro_id=rid),
+                                                        B.ro_replace([B.story(f'R{i}')], message_id=mid, ro_id=rid)][(i + no + nd) % 3]))
                         for allow in (False, True):
                             out.append({'docs': docs, 'allow': allow,
                                         'label': f'creates={nc} deletes={nd} others={no} roids={label} {order} allow={allow}'})
